@@ -11,6 +11,7 @@ pub mod c08;
 pub mod c11;
 pub mod c12;
 pub mod c18;
+pub mod c19;
 pub mod diag;
 
 use crate::PropDef;
@@ -45,5 +46,6 @@ pub fn registry() -> Vec<PropDef> {
         def("C11", 11, c11::case, None, true),
         def("C12", 12, c12::case, Some(c12::advertised), true),
         def("C18", 18, c18::case, None, true),
+        def("C19", 19, c19::case, None, false),
     ]
 }
